@@ -8,8 +8,8 @@ use crate::rec::Rec;
 use crate::vstore::*;
 use compact_encoding::CompactEncoding;
 use hypercore::{
-    DataBlock, DataHash, DataSeek, DataUpgrade, HypercoreBuilder, Node, RequestBlock, RequestSeek,
-    RequestUpgrade, Storage,
+    DataBlock, DataHash, DataSeek, DataUpgrade, HypercoreBuilder, Node, PartialKeypair, RequestBlock,
+    RequestSeek, RequestUpgrade, Storage,
 };
 use merkle_tree_stream::Node as NodeTrait;
 use rand::rngs::StdRng;
@@ -573,3 +573,179 @@ pub fn js_records(core: &Core) -> Option<Value> {
 
 #[allow(dead_code)]
 pub fn unused(_: &Op) {}
+
+// ---------------------------------------------------------------------------
+// Merkle.tla -> crate: honest proof shapes and the verifier's decisions on altered proofs
+// (behaviours exported by TLC from spec/MCMerkle.tla)
+
+fn mk_block(i: u64, size: u64) -> Vec<u8> {
+    (0..size).map(|j| (i as u8).wrapping_mul(16).wrapping_add(j as u8).wrapping_add(1)).collect()
+}
+
+pub fn merkle(args: &[String]) {
+    let l = layout().expect("HCV_LAYOUT");
+    let input = arg(args, "--in", "merkle.ndjson");
+    let out = arg(args, "--out", "merkle.json");
+    let text = std::fs::read_to_string(&input).unwrap();
+    let mut lines = 0u64;
+    let mut shape_diffs: Vec<Value> = vec![];
+    let mut disagreements: Vec<Value> = vec![];
+    let mut decisions = 0u64;
+    let mut honest_refused: Vec<Value> = vec![];
+    for line in text.lines() {
+        if line.trim().is_empty() {
+            continue;
+        }
+        lines += 1;
+        let j: Value = serde_json::from_str(line).unwrap();
+        let sizes: Vec<u64> = j["sizes"].as_array().unwrap().iter().map(|x| x.as_u64().unwrap()).collect();
+        let blocks: Vec<Vec<u8>> = sizes.iter().enumerate().map(|(i, s)| mk_block(i as u64, *s)).collect();
+        let full = ref_tree(l, &blocks).unwrap();
+        let r = catch_unwind(AssertUnwindSafe(|| {
+            let kp = test_key_pair();
+            let (mut w, _) = Core::create("w", VDisk::new(), kp.clone());
+            let (mut rep, _) = Core::create("r", VDisk::new(), PartialKeypair { public: kp.public, secret: None });
+            let mut local: Vec<Value> = vec![];
+            // replay the history
+            for st in j["hist"].as_array().unwrap() {
+                match st[0].as_str().unwrap() {
+                    "grow" => {
+                        let n = st[1].as_u64().unwrap();
+                        while w.len() < n {
+                            let i = w.len() as usize;
+                            w.append_single(&blocks[i]);
+                        }
+                    }
+                    _ => {
+                        let b = st[1].as_i64().unwrap();
+                        let (rl, wl) = (rep.len(), w.len());
+                        let block = if b >= 0 { Some(RequestBlock { index: b as u64, nodes: rep.missing_nodes(b as u64).unwrap_or(0) }) } else { None };
+                        let up = if rl < wl { Some(RequestUpgrade { start: rl, length: wl - rl }) } else { None };
+                        match w.create_proof(block, None, None, up) {
+                            Ok(Some(p)) => {
+                                let ret = rep.apply_proof(&p);
+                                if ret["applied"] != true {
+                                    local.push(json!({"what":"honest proof of the history refused","step":st,"ret":ret}));
+                                }
+                            }
+                            other => local.push(json!({"what":"no honest proof for a step of the history","step":st,"got":format!("{other:?}").chars().take(120).collect::<String>()})),
+                        }
+                    }
+                }
+            }
+            // the request of this line
+            let b = j["b"].as_i64().unwrap();
+            let (rl, wl) = (rep.len(), w.len());
+            let mut shape_diff = None;
+            if rl != j["rl"].as_u64().unwrap() {
+                local.push(json!({"what":"replica length after the history","got":rl,"spec":j["rl"]}));
+            }
+            let miss = if b >= 0 { rep.missing_nodes(b as u64).unwrap_or(u64::MAX) } else { 0 };
+            if b >= 0 && (b as u64) < rl && miss != j["missing"].as_u64().unwrap() {
+                local.push(json!({"what":"missing_nodes","b":b,"got":miss,"spec":j["missing"]}));
+            }
+            let block = if b >= 0 { Some(RequestBlock { index: b as u64, nodes: miss }) } else { None };
+            let up = if rl < wl { Some(RequestUpgrade { start: rl, length: wl - rl }) } else { None };
+            if let Ok(Some(p)) = w.create_proof(block, None, None, up) {
+                let idx = |v: &Vec<Node>| v.iter().map(|n| n.index()).collect::<Vec<u64>>();
+                let got_b = p.block.as_ref().map(|x| idx(&x.nodes)).unwrap_or_default();
+                let got_u = p.upgrade.as_ref().map(|x| idx(&x.nodes)).unwrap_or_default();
+                let got_x = p.upgrade.as_ref().map(|x| idx(&x.additional_nodes)).unwrap_or_default();
+                let spec_b: Vec<u64> = j["honest"]["block"]["nodes"].as_array().unwrap().iter().map(|n| n[0].as_u64().unwrap()).collect();
+                let spec_u: Vec<u64> = j["honest"]["up"]["nodes"].as_array().unwrap().iter().map(|n| n[0].as_u64().unwrap()).collect();
+                if got_b != spec_b || got_u != spec_u || !got_x.is_empty() {
+                    shape_diff = Some(json!({"hist":j["hist"],"b":b,"crate":{"block":got_b,"up":got_u,"extra":got_x},"spec":{"block":spec_b,"up":spec_u}}));
+                }
+            } else {
+                local.push(json!({"what":"no honest proof for the request","b":b}));
+            }
+            // altered proofs: the spec's decision against the crate's
+            let base = rep.disk.images();
+            let mut dis: Vec<Value> = vec![];
+            let mut n = 0u64;
+            let mk_nodes = |v: &Value| -> Vec<Node> {
+                v.as_array().unwrap().iter().map(|x| {
+                    let tag = x[2].as_i64().unwrap();
+                    let h = if tag >= 0 { full.nodes[&(tag as u64)].1.clone() } else { vec![0xBA; 32] };
+                    Node::new(x[0].as_u64().unwrap(), h, x[1].as_u64().unwrap())
+                }).collect()
+            };
+            for a in j["alts"].as_array().unwrap() {
+                let pj = &a["p"];
+                let block = if pj["hasblock"] == true {
+                    let val = pj["block"]["val"].as_u64().unwrap();
+                    let size = pj["block"]["size"].as_u64().unwrap() as usize;
+                    let mut value = if val >= 1 { blocks[(val - 1) as usize].clone() } else { vec![0xEE; size] };
+                    value.resize(size, 0);
+                    Some(DataBlock { index: pj["block"]["i"].as_u64().unwrap(), value, nodes: mk_nodes(&pj["block"]["nodes"]) })
+                } else { None };
+                let upgrade = if pj["hasup"] == true {
+                    let sj = &pj["up"]["sig"];
+                    let n = sj[1].as_u64().unwrap();
+                    let signature = match sj[0].as_str().unwrap() {
+                        "true" | "other" => {
+                            let t = ref_tree(l, &blocks[..n as usize]).unwrap();
+                            let msg = ref_signable(l, &ref_tree_hash(l, &t), n, 0);
+                            if sj[0] == "true" { sign_ref(&msg) } else {
+                                use ed25519_dalek::Signer;
+                                other_key_pair(3).secret.unwrap().sign(&msg).to_bytes().to_vec()
+                            }
+                        }
+                        _ => vec![0x11; 64],
+                    };
+                    Some(DataUpgrade { start: pj["up"]["start"].as_u64().unwrap(), length: pj["up"]["length"].as_u64().unwrap(),
+                        nodes: mk_nodes(&pj["up"]["nodes"]), additional_nodes: vec![], signature })
+                } else { None };
+                let proof = hypercore::Proof { fork: pj["fork"].as_u64().unwrap(), block, hash: None, seek: None, upgrade };
+                let ret = rep.apply_proof(&proof);
+                let accepted = ret["t"] == "ok" && ret["applied"] == true;
+                n += 1;
+                // whatever the crate accepted must be content of the writer's log (compared directly
+                // between the two cores' data: no model involved)
+                let mut unsound: Vec<String> = vec![];
+                if accepted {
+                    let len = rep.len();
+                    if len > wl {
+                        unsound.push(format!("length {len} beyond the writer's {wl}"));
+                    }
+                    let bytes: u64 = sizes[..(len.min(wl) as usize)].iter().sum();
+                    let info_bytes = rep.hc.as_ref().map(|h| h.info().byte_length).unwrap_or(0);
+                    if info_bytes != bytes {
+                        unsound.push(format!("byte length {info_bytes} but the writer's first {len} blocks have {bytes}"));
+                    }
+                    for i in 0..len.min(wl) {
+                        if rep.has(i).unwrap_or(false) {
+                            match rep.get_raw(i) {
+                                Ok(Some(v)) if v == blocks[i as usize] => {}
+                                other => unsound.push(format!("block {i} reads {:?}", other.map(|o| o.map(|v| v.len())))),
+                            }
+                        }
+                    }
+                }
+                if accepted != (a["ok"] == true) || !unsound.is_empty() {
+                    dis.push(json!({"hist":j["hist"],"b":b,"alt":pj,"spec_accepts":a["ok"],"crate":ret,"unsound":unsound}));
+                }
+                if accepted {
+                    let (c2, _) = Core::open("r", VDisk::from_images(base.clone()));
+                    rep = c2;
+                }
+            }
+            (local, shape_diff, dis, n)
+        }));
+        match r {
+            Ok((local, sd, dis, n)) => {
+                honest_refused.extend(local);
+                if let Some(s) = sd { shape_diffs.push(s); }
+                disagreements.extend(dis);
+                decisions += n;
+            }
+            Err(p) => honest_refused.push(json!({"what":"panic","line":lines,"msg":panic_json(p)})),
+        }
+    }
+    let unsound: Vec<&Value> = disagreements.iter().filter(|d| !d["unsound"].as_array().unwrap().is_empty()).collect();
+    let j = json!({"unsound": unsound.len(), "unsound_samples": unsound.iter().take(5).collect::<Vec<_>>(),
+        "lines": lines, "decisions": decisions, "shape_diffs": shape_diffs.len(), "shape_diff_samples": shape_diffs.iter().take(5).collect::<Vec<_>>(),
+        "disagreements": disagreements.len(), "disagreement_samples": disagreements.iter().take(8).collect::<Vec<_>>(),
+        "problems": honest_refused.len(), "problem_samples": honest_refused.iter().take(8).collect::<Vec<_>>()});
+    std::fs::write(out, serde_json::to_string_pretty(&j).unwrap()).unwrap();
+}
